@@ -28,6 +28,9 @@ CHECKS = {
  'C08': dict(
     text='One check / one ping is executed from an arbitrary in-memory context (counter, times, interval symbolic at full width), which is the inductive step for histories of any length: counter and last-contact rules per error class, final announcements, persist+commit before return; the three context keys are written only by Context::persist from one context, and persist/load are inverse at microsecond precision for every context, so with the Storage contract (atomic commit) a crash at any instant leaves the last commit.',
     note=SM_NOTE + ' Storage implementations\' atomicity is assumed (trait contract).', design='4/C08', technique=PATHS),
+ 'C01': dict(
+    text='parse_etag is executed on every byte string up to 8 (quick) / 12 (thorough) bytes and equals the stripping rule with no panic. All paths of verify_response and verify_response_with_signature / make_transaction_hash are enumerated with SHA-256, hex, DER and ECDSA as abstract primitives: the check decides which values flow into which primitive (ETag split at the first colon, whole-value comparison of the decoded hash with SHA-256(retained request body), signature from the left part, key looked up by the key id ARGUMENT, digest composed as H(H(req)||H(resp)||"<id>:<nonce>") in this order), that every outcome maps to accept / its error class, and that the accepted signature is returned unchanged.',
+    note='Trusted: sha2, hex, der, ecdsa/p256 primitives (abstract events; hash injectivity not assumed); HeaderValue::to_str model; rustc nightly MIR; z3. Outside: PEM (de)serialisation of PublicKeys, the real-SHA digest miter (Kani did not finish in the design probe).', design='4/C01', technique=PATHS),
  'C03': dict(
     text='All paths of StandardCupv2Handler::decorate_request (one fresh nonce, cup2key = format(latest key id, that nonce) appended to the parsed request URI and written back, metadata = body serialised from the same request + same id + same nonce, error mapping) and of RequestBuilder::build with and without a handler (the Intermediate decorated is the one converted into the HTTP request: decorated URI = request URI, body seen by the handler = body serialised for the wire, metadata returned = the handler\'s); fresh request id / constant session id per attempt from the attempt-loop exploration.',
     note=SM_NOTE + ' Outside: URL algebra of append_query_parameter (http::Uri), RNG quality.', design='4/C03', technique=PATHS),
